@@ -53,6 +53,11 @@ pub enum Payload {
     Everything,
     /// an `override` filter on one header name shared by every rule (conflicting rewrites of the same header)
     HeaderOverrideShared,
+    /// a redirect whose rule also carries a filter of its own on the Location header (spelled `location`): the target sets the
+    /// header first, the rule's own filter then rewrites it
+    RedirectAndLocationReplace,
+    /// the SAME override (header X-Shared, value "same") whichever rule carries it: two matched rules then hold identical filters
+    HeaderOverrideSame,
 }
 
 pub const CONDS: [Cond; 6] = [Cond::None, Cond::Include404, Cond::Exclude404, Cond::Include404_500, Cond::Exclude500_404, Cond::Include404FlagFalse];
@@ -70,7 +75,7 @@ pub const CONTROLS: [Control; 12] = [
     Control::ResetStopSampling0,
     Control::ResetStopSampling100,
 ];
-pub const PAYLOADS: [Payload; 8] = [
+pub const PAYLOADS: [Payload; 10] = [
     Payload::Redirect301,
     Payload::Status404,
     Payload::HeaderAdd,
@@ -79,6 +84,8 @@ pub const PAYLOADS: [Payload; 8] = [
     Payload::LogFalse,
     Payload::Everything,
     Payload::HeaderOverrideShared,
+    Payload::RedirectAndLocationReplace,
+    Payload::HeaderOverrideSame,
 ];
 
 #[derive(Clone, Copy, Debug, Serialize, Deserialize, PartialEq, Eq, Hash, PartialOrd, Ord)]
@@ -127,6 +134,10 @@ pub fn core_shapes() -> Vec<Shape> {
     v.push(Shape { cond: Cond::Include404, control: Control::Stop, payload: Payload::Status404 });
     for payload in [Payload::Redirect301, Payload::LogFalse, Payload::Everything] {
         v.push(Shape { cond: Cond::Include404FlagFalse, control: Control::Plain, payload });
+    }
+    for cond in [Cond::None, Cond::Include404] {
+        v.push(Shape { cond, control: Control::Plain, payload: Payload::RedirectAndLocationReplace });
+        v.push(Shape { cond, control: Control::Plain, payload: Payload::HeaderOverrideSame });
     }
     v.sort();
     v.dedup();
@@ -177,7 +188,7 @@ impl Shape {
     }
     pub fn status(&self) -> Option<u16> {
         match self.payload {
-            Payload::Redirect301 => Some(301),
+            Payload::Redirect301 | Payload::RedirectAndLocationReplace => Some(301),
             Payload::Status404 => Some(404),
             Payload::Everything => Some(302),
             _ => None,
@@ -185,7 +196,7 @@ impl Shape {
     }
     pub fn target(&self, id: &str) -> Option<String> {
         match self.payload {
-            Payload::Redirect301 | Payload::Everything => Some(format!("/t-{id}")),
+            Payload::Redirect301 | Payload::Everything | Payload::RedirectAndLocationReplace => Some(format!("/t-{id}")),
             _ => None,
         }
     }
@@ -198,6 +209,13 @@ impl Shape {
     pub fn header_override_shared(&self, id: &str) -> Option<(String, String)> {
         match self.payload {
             Payload::HeaderOverrideShared => Some(("X-Shared".to_string(), format!("s{id}"))),
+            Payload::HeaderOverrideSame => Some(("X-Shared".to_string(), "same".to_string())),
+            _ => None,
+        }
+    }
+    pub fn header_replace_location(&self, id: &str) -> Option<(String, String)> {
+        match self.payload {
+            Payload::RedirectAndLocationReplace => Some(("location".to_string(), format!("/own-{id}"))),
             _ => None,
         }
     }
@@ -230,6 +248,7 @@ impl Shape {
             "rank": rank,
             "body_filters": self.body_append(id).map(|c| json!([{"action": "append_text", "content": c, "id": format!("bu-{id}"), "target_hash": format!("bth-{id}")}])),
             "header_filters": match (self.header_add(id), self.header_override_shared(id)) {
+                _ if self.header_replace_location(id).is_some() => json!([{"action": "replace", "header": "location", "value": format!("/own-{id}"), "id": format!("hu-{id}"), "target_hash": null}]),
                 (Some((n, v)), _) => json!([{"action": "add", "header": n, "value": v, "id": format!("hu-{id}"), "target_hash": format!("hth-{id}")}]),
                 (_, Some((n, v))) => json!([{"action": "override", "header": n, "value": v, "id": null, "target_hash": null}]),
                 _ => Value::Null,
@@ -250,7 +269,8 @@ impl Shape {
 
 /// mixed letter case on purpose: byte order and case-folded order disagree ("B" < "a" but "b" > "a")
 pub const IDS: [&str; 5] = ["a", "B", "c", "D", "e"];
-pub const CODES: [u16; 4] = [0, 200, 404, 500];
+/// 204 / 304: responses without a body (the action is asked all the same)
+pub const CODES: [u16; 6] = [0, 200, 404, 500, 204, 304];
 pub const OVERRIDES: [Option<bool>; 3] = [None, Some(true), Some(false)];
 
 /// rank patterns: 0 = all distinct (first listed = highest), 1 = all tied, 2 = first two tied, 3 = ascending
@@ -422,6 +442,9 @@ pub fn reference_obs(rules: &[(String, u16, Shape)], sampling_override: Option<b
         }
         if let Some((n, v)) = r.2.header_override_shared(&r.0) {
             headers = reference_apply("override", &n, &v, headers);
+        }
+        if let Some((n, v)) = r.2.header_replace_location(&r.0) {
+            headers = reference_apply("replace", &n, &v, headers);
         }
     }
     // body
